@@ -614,6 +614,7 @@ func (c *DutiesCache) SyncCommDutiesCache(ctx context.Context, epoch eth2p0.Epoc
 
 		for _, d := range dutiesForEpoch.duties {
 			if _, hit := requestedSet[d.ValidatorIndex]; hit {
+				d.ValidatorSyncCommitteeIndices = slices.Clone(d.ValidatorSyncCommitteeIndices) // Do not share the cached slice with callers.
 				dutiesResult = append(dutiesResult, &d)
 			}
 		}
@@ -645,6 +646,7 @@ func (c *DutiesCache) SyncCommDutiesCache(ctx context.Context, epoch eth2p0.Epoc
 		}
 
 		d := *duty
+		d.ValidatorSyncCommitteeIndices = slices.Clone(d.ValidatorSyncCommitteeIndices) // Do not share the caller's slice with the cache.
 		dutiesDeref = append(dutiesDeref, d)
 	}
 
